@@ -6,6 +6,8 @@ while the main coroutine is unfinished the run is a deadlock.
 """
 
 import asyncio
+import threading
+import time as _wall
 
 
 class SimDeadlock(Exception):
@@ -19,11 +21,25 @@ class SimStepCap(Exception):
 class _FakeSelector:
     def __init__(self, loop):
         self._loop = loop
+        self._thread_grace = 10_000  # ~10 s of wall clock in total
 
     def select(self, timeout=None):
         if timeout is None:
+            # nothing ready and no timer pending. If the code under test started real threads of its own (an own
+            # ThreadPoolExecutor, say), their completion arrives through call_soon_threadsafe: give them wall-clock
+            # time (bounded) before calling it a deadlock. The simulator owns no schedule there - it just must not
+            # report a false deadlock.
+            if threading.active_count() > 1 and self._thread_grace > 0:
+                self._thread_grace -= 1
+                _wall.sleep(0.001)
+                return []
             raise SimDeadlock(f"deadlock at virtual time {self._loop.time()}")
         if timeout > 0:
+            if threading.active_count() > 1 and self._thread_grace > 0:
+                # let finished threads hand in their results before virtual time jumps to the next timer
+                self._thread_grace -= 1
+                _wall.sleep(0.0005)
+                return []
             self._loop._vtime += timeout
         return []
 
